@@ -124,7 +124,11 @@ impl UntypedEntry {
             unsafe {
                 let _g = d.lock.write();
                 swap_any(&mut *self.value.get(), value.0.value.get_mut());
+                #[cfg(assets_manager_verif)]
+                detsim::atomic_point(detsim::AT_RELOAD, "entry.write.increment");
                 d.reload.increment();
+                #[cfg(assets_manager_verif)]
+                detsim::atomic_point(detsim::AT_RELOAD, "entry.write.flag");
                 d.reload_global.store(true, Ordering::Release);
             }
             return;
@@ -310,6 +314,8 @@ impl UntypedHandle {
     /// [`reload_watcher`]: Self::reload_watcher
     #[inline]
     pub fn reloaded_global(&self) -> bool {
+        #[cfg(assets_manager_verif)]
+        detsim::atomic_point(detsim::AT_RELOAD, "reloaded_global");
         self.either(
             || false,
             |this| this.reload_global.swap(false, Ordering::Acquire),
@@ -445,6 +451,8 @@ impl<T> Handle<T> {
     /// [`reload_watcher`]: Self::reload_watcher
     #[inline]
     pub fn reloaded_global(&self) -> bool {
+        #[cfg(assets_manager_verif)]
+        detsim::atomic_point(detsim::AT_RELOAD, "reloaded_global");
         self.either(
             || false,
             |this| this.reload_global.swap(false, Ordering::Acquire),
@@ -757,18 +765,24 @@ impl AtomicReloadId {
     /// if `self` was updated.
     #[inline]
     pub fn update(&self, new: ReloadId) -> bool {
+        #[cfg(assets_manager_verif)]
+        detsim::atomic_point(detsim::AT_RELOAD, "reload_id.update");
         new > self.fetch_max(new)
     }
 
     /// Loads the inner `ReloadId`.
     #[inline]
     pub fn load(&self) -> ReloadId {
+        #[cfg(assets_manager_verif)]
+        detsim::atomic_point(detsim::AT_RELOAD, "reload_id.load");
         ReloadId(self.0.load(Ordering::Acquire))
     }
 
     /// Stores a `ReloadId`.
     #[inline]
     pub fn store(&self, new: ReloadId) {
+        #[cfg(assets_manager_verif)]
+        detsim::atomic_point(detsim::AT_RELOAD, "reload_id.store");
         self.0.store(new.0, Ordering::Release)
     }
 
@@ -781,12 +795,16 @@ impl AtomicReloadId {
     /// Stores a `ReloadId`, returning the previous one.
     #[inline]
     pub fn swap(&self, new: ReloadId) -> ReloadId {
+        #[cfg(assets_manager_verif)]
+        detsim::atomic_point(detsim::AT_RELOAD, "reload_id.swap");
         ReloadId(self.0.swap(new.0, Ordering::AcqRel))
     }
 
     /// Stores the maximum of the two `ReloadId`, returning the previous one.
     #[inline]
     pub fn fetch_max(&self, new: ReloadId) -> ReloadId {
+        #[cfg(assets_manager_verif)]
+        detsim::atomic_point(detsim::AT_RELOAD, "reload_id.fetch_max");
         ReloadId(self.0.fetch_max(new.0, Ordering::AcqRel))
     }
 }
